@@ -184,7 +184,7 @@ func runC05(c *Ctx) {
 		{pkg: "cdi", name: "(*Spec).validate",
 			// the map gets exactly one entry per device on every path that completes the loop
 			// (rule devices-map), so "no device" may be tested on the list or on the map
-			syn: map[string]string{"nonempty($0.Spec.Devices)": "nonempty(make:map)", "empty($0.Spec.Devices)": "empty(make:map)"},
+			syn:     map[string]string{"nonempty($0.Spec.Devices)": "nonempty(make:map)", "empty($0.Spec.Devices)": "empty(make:map)"},
 			success: [][]string{{"loopdone($0.Spec.Devices)", "nil(err:cdi.(*ContainerEdits).Validate)", "nil(err:parser.ValidateClassName)", "nil(err:parser.ValidateVendorName)", "nil(err:specs.ValidateVersion)", "nil(err:validation.ValidateSpecAnnotations)", "nonempty(make:map)"}},
 			failures: [][]string{
 				{"loop($0.Spec.Devices)", "nonnil(err:cdi.newDevice)"},
@@ -214,6 +214,30 @@ func runC05(c *Ctx) {
 		c05CheckValidator(c, vs)
 	}
 	c05Extra(c)
+	c.documentUntouched("C05.2")
+	// released versions: a cdiVersion is valid exactly when it is a key of the table of released
+	// versions (not merely a well-formed version in some range)
+	if iv := c.fn("C05.2", "specs", "(requiredVersionMap).isValidVersion"); iv != nil {
+		ok := true
+		var found []string
+		for _, er := range c.exprReturns(iv) {
+			found = append(found, er.results[0])
+			if er.results[0] != "validSpecVersions[newVersion($1)]#1" && er.results[0] != "$0[newVersion($1)]#1" {
+				ok = false
+			}
+		}
+		r0 := c.R
+		r0.Check("C05.2", "released-versions", ok && len(found) > 0, c.U.Pos(iv.Pos()), fmt.Sprintf("isValidVersion(v) is 'newVersion(v) is a key of the released-versions table' (found %v)", found))
+		if vv := c.fn("C05.2", "specs", "ValidateVersion"); vv != nil {
+			okCall := false
+			for _, call := range c.callsTo(vv, false, "specs", "(requiredVersionMap).isValidVersion") {
+				if normExpr(vv, []string{c.exprDesc(call.Common().Args[1])})[0] == "$0.Version" {
+					okCall = true
+				}
+			}
+			r0.Check("C05.2", "released-versions-applied", okCall, c.U.Pos(vv.Pos()), "ValidateVersion tests the Spec's own cdiVersion against the table")
+		}
+	}
 	c05TypeSwitch(c)
 	c05IsEmpty(c)
 	c05Tables(c)
